@@ -159,11 +159,11 @@ def load():
     from checks import hub
     reg("C15", hub.c15, "model_checking",
         "TLC checks the HubContract model (spec/HubContract.tla, GenHub.tla: history == the most recent N stored messages not deleted since, HistoryThenLive, ExactlyOnceInOrder, "
-        "GoneGetsNoMore, OthersUnaffected, NobodyMisses, DroppedStaysDropped, HubNeverBlocks) exhaustively, walks every (state, operation) edge, enumerates schedules in which a slow "
-        "listener holds the hub goroutine while operations are queued, and simulates long behaviours; each is executed on the real msghub.Hub with the real WebSocket listeners "
+        "GoneGetsNoMore, OthersUnaffected, NobodyMisses, DroppedStaysDropped, HubNeverBlocks) exhaustively, enumerates all operation sequences to a bounded depth (history, live, "
+        "and schedules in which a slow listener holds the hub goroutine while operations are queued) and simulates long behaviours; each is executed on the real msghub.Hub with the real WebSocket listeners "
         "(constructor hook) and a recording mock, hub.Sync() probed after every operation, and TLC validates every listener's observed sequence and the probe against the contract "
         "(HubTrace.tla).",
         "trusts TLC, the driver (harness/cmd/vh/hub.go: Take stands in for the socket writer, two Close() calls for a disconnect), 5 s progress deadline; no real sockets; N=0 not exercised",
-        "TLA+ contract + TLC transition tour, schedule enumeration and simulation replayed on the real hub and listeners + TLC trace validation",
+        "TLA+ contract + TLC bounded-exhaustive sequence/schedule enumeration and simulation replayed on the real hub and listeners + TLC trace validation",
         "DESIGN.md 5/C15", "hub")
     return REG
